@@ -829,7 +829,10 @@ impl Database {
             Some(watchers_vec) => watchers_vec.clone(),
             _ => Vec::new(),
         };
-        senders.push(sender.clone());
+        // Watching a key twice must not double every notification
+        if !senders.iter().any(|s| s.same_receiver(sender)) {
+            senders.push(sender.clone());
+        }
         watchers.insert(key.clone(), senders);
         Response::Ok {}
     }
